@@ -84,6 +84,8 @@ _TXT = dict(POOL)
 
 
 class HistSpace(spaces.Space):
+    SINGLE_DELETION = False
+
     def __init__(self, tier):
         self.name = f"histories-{tier}"
         names = [n for n, _t in POOL]
